@@ -254,6 +254,91 @@ mod mon_bytes_run {
         )
     }
 
+    /// Front-end layer shared by the byte-level checks: unseeded batch runs of the built CLI for a
+    /// set of flag combinations; every written file goes through the same monitor as library
+    /// output, judged under the configuration the command line asked for.
+    fn cli_layer<F>(acc: &mut Acc, thorough: bool, with_unsafe: bool, check: F)
+    where
+        F: Fn(&Config, &CaseResult, &mut Acc) + Sync,
+    {
+        if std::env::var("PFV_CLI").is_err() {
+            acc.count("cli_layer_skipped_no_PFV_CLI", 1);
+            return;
+        }
+        let samples = if thorough { 200 } else { 30 };
+        // (mutators, rate, unsafe)
+        let mut mut_sets: Vec<(Vec<Mk>, &str, bool)> = vec![
+            (vec![], "0.1", false),
+            (vec![Mk::Offbyone, Mk::Memoindex], "1.0", false),
+            (ALL_MK.iter().copied().filter(|m| *m != Mk::Memoindex).collect(), "0.5", false),
+        ];
+        if with_unsafe {
+            mut_sets.push((ALL_MK.to_vec(), "0.5", true));
+        }
+        let mut jobs: Vec<(u8, bool, bool, usize)> = Vec::new();
+        for proto in 0..6u8 {
+            for (e, b) in [(false, false), (true, false), (false, true), (true, true)] {
+                for k in 0..mut_sets.len() {
+                    if (proto as usize + k + e as usize + 2 * b as usize) % 2 == 0 || thorough {
+                        jobs.push((proto, e, b, k));
+                    }
+                }
+            }
+        }
+        let jobs_ref = &jobs;
+        let sets_ref = &mut_sets;
+        let fe = par_run(
+            jobs.len(),
+            Acc::new,
+            |i, acc| {
+                let (proto, e, b, k) = jobs_ref[i];
+                let (muts, rate, uns) = &sets_ref[k];
+                let mut args: Vec<String> = vec!["--protocol".into(), proto.to_string(), "--mutation-rate".into(), rate.to_string()];
+                if e {
+                    args.push("--allow-ext".into());
+                }
+                if b {
+                    args.push("--allow-buffer".into());
+                }
+                if *uns {
+                    args.push("--unsafe-mutations".into());
+                }
+                if !muts.is_empty() {
+                    args.push("--mutators".into());
+                    args.extend(muts.iter().map(|m| m.name().to_string()));
+                }
+                match cli_batch(&args, samples, &[]) {
+                    Err(m) => acc.inconclusive.push(format!("CLI batch run failed in the front-end layer: {}", m)),
+                    Ok(files) => {
+                        let cfg = Config {
+                            mutators: muts.clone(),
+                            rate: rate.parse().unwrap_or(0.1),
+                            unsafe_mut: *uns,
+                            ext: e,
+                            buf: b,
+                            ..Config::default_for(proto, Entropy::Seed(0))
+                        };
+                        for bytes in files {
+                            let before = acc.violations.len();
+                            let res = CaseResult { outcome: Outcome::Ok(bytes), events: vec![] };
+                            check(&cfg, &res, acc);
+                            for v in acc.violations.iter_mut().skip(before) {
+                                v.message = format!("[file written by the CLI: pickle-fuzzer --dir D {}] {}", args.join(" "), v.message);
+                                v.signature = format!("{}:via_cli", v.signature);
+                            }
+                            acc.count("cli_files_checked", 1);
+                        }
+                    }
+                }
+            },
+            |a, b| a.merge(b),
+        );
+        acc.merge(fe);
+        if acc.get("cli_files_checked") < 200 {
+            acc.inconclusive.push("too few CLI-written files checked".into());
+        }
+    }
+
     fn std_assumptions() -> Vec<String> {
         vec![
             "O1/O2 (lexer, reference machine) are written independently of src/ and cross-checked against CPython pickletools on a sample of this run".into(),
@@ -321,6 +406,7 @@ mod mon_bytes_run {
         // W5: recipe-steered object-heavy and alias-heavy pickles (typed opcodes, DUP aliases)
         let st = crate::mon_trace::steered_block(if thorough { 40_000 } else { 4_000 }, seed, true, &check_c01);
         acc.merge(st);
+        cli_layer(&mut acc, thorough, false, check_c01);
         for h in big_handles {
             match h.join() {
                 Ok(a) => acc.merge(a),
@@ -380,6 +466,7 @@ mod mon_bytes_run {
             |a, b| a.merge(b),
         );
         acc.merge(long);
+        cli_layer(&mut acc, thorough, false, check_c02);
         if acc.get("GET_family_executed") < 1000 || acc.get("PUT_family_executed") < 1000 {
             acc.inconclusive.push("too few memo opcodes observed".into());
         }
@@ -410,6 +497,7 @@ mod mon_bytes_run {
         };
         let acc2 = bulk(n2, seed ^ 0xE474, &sp2, None, check_c04);
         acc.merge(acc2);
+        cli_layer(&mut acc, thorough, true, check_c04);
         if acc.get("cases_unsafe") < 1000 {
             acc.inconclusive.push("too few unsafe-mode cases".into());
         }
@@ -427,6 +515,7 @@ mod mon_bytes_run {
         let mut sp = Space::safe();
         sp.ranges.extend_from_slice(&[(2, 2), (3, 3), (4, 4), (5, 5), (6, 6)]);
         let mut acc = bulk(n, seed, &sp, None, check_c05);
+        cli_layer(&mut acc, thorough, false, check_c05);
         for p in 0..6 {
             if acc.get(&format!("pickles_P{}", p)) < 100 {
                 acc.inconclusive.push(format!("too few protocol {} pickles", p));
